@@ -19,7 +19,7 @@ func init() {
 }
 
 // cutModes: how the end is signalled at the cut.
-var cutModes = []string{"eof", "err-after", "err-with-data"}
+var cutModes = []string{"eof", "err-after", "err-with-data", "temporary-err-after"}
 
 type c10Case struct {
 	Stream *gen.Stream `json:"stream"`
@@ -131,7 +131,11 @@ func c10Eval(r *core.Run, base *c10Base, c *c10Case) {
 	case 2:
 		src.Final = sched.ErrInjected
 		src.FinalWithData = true
+	case 3:
+		// a failure that describes itself as temporary (EAGAIN, a deadline) and does not go away
+		src.Final = sched.ErrTemporary
 	}
+	wantErr := src.Final
 	res := resumeAllSrc(src, namingOpts(), true, len(base.snaps)+8)
 	r.Eval(1)
 	report := func(key, what string) {
@@ -151,8 +155,8 @@ func c10Eval(r *core.Run, base *c10Base, c *c10Case) {
 			report("error", "end of stream but no error/EOF reported")
 			return
 		}
-	} else if res.FinalErr != sched.ErrInjected {
-		report("error", fmt.Sprintf("the reader failed with %q but scanning reported %v", sched.ErrInjected, res.FinalErr))
+	} else if res.FinalErr != wantErr {
+		report("error", fmt.Sprintf("the reader failed with %q but scanning reported %v", wantErr, res.FinalErr))
 		return
 	}
 	// Goroutine rule.
@@ -314,7 +318,10 @@ func runC10(r *core.Run) {
 		}
 		inDump := 0
 		for cut := 0; cut <= len(base.in); cut++ {
-			for mode := 0; mode < 3; mode++ {
+			for mode := 0; mode < 4; mode++ {
+				if mode == 3 && cut%7 != 0 {
+					continue // the fourth way of signalling at every seventh offset
+				}
 				c10Eval(r, base, &c10Case{Stream: s, Cut: cut, Mode: mode})
 			}
 			for _, gi := range base.dumpSeg {
